@@ -91,6 +91,7 @@ PROPS = {
         "policy": {
             "guards": ["wellformed", "duplicate", "latest_or_bypass", "signatures", "set_known", "nonempty_list"],
             "fields": ["epoch", "hashByEpoch", "epochOf"],
+            "invariants": ["LookupsInverse", "InstalledWellFormed", "EpochLen"],
             "events": ["signers_rotated"],
             "rets": [],
         },
